@@ -288,8 +288,13 @@ pub fn c07_bans(cx: &mut Ctx) {
                         cx.probe("c07_routed_around_ban");
                     }
                     // (H) a hung / dead candidate that cost us a timeout must be banned now
+                    // The inference "it waited about a timeout, so it tried the dead one" only holds when
+                    // nothing else explains the wait: no new connection to the server that finally
+                    // served it was opened meanwhile, and the network alone cannot account for it.
                     let lat = w1 - w0;
-                    if lat as f64 >= 0.9 * (hct.min(ct) as f64) {
+                    let net_allowance = 8 * (cx.spec.net.latency_ms.1 + cx.spec.net.jitter_ms) * 1000;
+                    let connected_meanwhile = h.backend_conns.iter().any(|b| &b.host == x && b.opened_us + 1000 >= w0 && b.opened_us <= w1);
+                    if !connected_meanwhile && lat as f64 >= 0.9 * (hct.min(ct) as f64) + net_allowance as f64 {
                         let faulty: Vec<&String> = elig.iter().cloned().filter(|y| t.faulty_in(y, w0, w1)).collect();
                         if faulty.len() == 1 {
                             let f = faulty[0];
